@@ -270,7 +270,8 @@ def process_config(job):
                             if 'smt2' in r:
                                 rec['smt2_head'] = r['smt2'][:1500]
                             cex_env = r.get('env')
-                        tv2_vals[ob.label] = _num_array(ob.lhs, full0)
+                        if ob.note != 'notv2':
+                            tv2_vals[ob.label] = _num_array(ob.lhs, full0)
                     elif ob.kind == 'holds':
                         if isinstance(ob.lhs, SymBool):
                             r = smt.check_bool(ctx, ob.lhs, pathcond, timeout_s=job['qtimeout'])
